@@ -288,7 +288,10 @@ def run_comb(c):
     if vt == 'SPIN':
         arr = 2 * arr - 1
     en = bqm.energies((arr, labels))
-    coq = f"(CComb {cnat(n)} {cz(k)} {cq(s)} {crows(rows, en)})"
+    binobs = "None"
+    if vt == 'BINARY':
+        binobs = f"(Some {coq_obs(gen.observe(bqm), LabelTable(labels))})"
+    coq = f"(CComb {cnat(n)} {cz(k)} {cq(s)} {cz(s.numerator)} {s.denominator}%positive {binobs} {crows(rows, en)})"
     return {"coq": coq, "py_fail": py_fail, "features": feats, "nontrivial": n > 1,
             "observed": {"bqm": gen.observe(bqm)}}
 
